@@ -2,6 +2,9 @@ import Driver.Common
 import CrabModel.Dom.Zones
 import CrabModel.Dom.Octagon
 import CrabModel.Dom.ItvEnv
+import CrabModel.Dom.ZonesOps
+import CrabModel.Dom.OctagonOps
+import CrabModel.Dom.ItvEnvOps
 
 /-!
   Handler for component `exact` (property C12): replays a history of in-language constraints,
@@ -17,7 +20,15 @@ import CrabModel.Dom.ItvEnv
                        be tight when the request called `normalize()` after the operation
    * `entails(c)`    : yes where the model says "not implied" = UNSOUND (witness: a state of γ
                        violating c), no where implied = IMPRECISE
-   * `a <= b`        : same against the model's inclusion.
+   * `a <= b`        : same against the model's inclusion (exact equality: the model's test is
+                       proved exact, `C04.zones_leq_iff`, `C04.oct_leq_iff` on the coherent values
+                       every history produces, `C04.itvenv_leq_iff`).
+
+  The assignments expressible in the language (`assignc` x := k, `assignv` x := y + k,
+  `assignn` x := -y + k), `project` and `forgetv` are replayed with the operations of
+  `CrabModel/Dom/{ZonesOps,OctagonOps,ItvEnvOps}.lean`, proved to be the exact post-images
+  (`C03.zones_stmt_exact`, `C03.oct_stmt_exact`, `C03.itvenv_stmt_exact`), so the same per-step
+  comparison ties `assign` / `project` / `forget(vector)` of the shipped domains to the model.
 
   Zone / interval witnesses come from the proved constructions (`Zones.witnessEdge`); octagon
   witnesses from a labelling search and are re-checked against the raw constraints.  For octagons
@@ -84,6 +95,16 @@ structure Model (α : Type) where
   join : α → α → α
   meet : α → α → α
   forget : α → Nat → α
+  /-- `x := k` -/
+  assignCst : α → Nat → Int → α
+  /-- `x := y + k` (`none`: outside the model's language) -/
+  assignVar : α → Nat → Nat → Int → Option α
+  /-- `x := -y + k` -/
+  assignNeg : α → Nat → Nat → Int → Option α
+  /-- `forget(vars)` -/
+  forgetAll : α → List Nat → α
+  /-- `project(vars)` -/
+  project : α → List Nat → α
   closeQ : α → α
   isBottomC : α → Bool
   boundsC : α → Nat → Itv
@@ -97,6 +118,10 @@ structure Model (α : Type) where
   selfTest : α → Option String
 
 def stateArr {n : Nat} (σ : Fin n → Int) : Array Int := Array.ofFn σ
+
+/-- the in-range variables of a request list -/
+def finList (n : Nat) (xs : List Nat) : List (Fin n) :=
+  xs.filterMap fun x => if h : x < n then some ⟨x, h⟩ else none
 
 -- ------------------------------------------------------------------ intervals
 section Itv
@@ -145,13 +170,18 @@ def itvModel (n : Nat) : Model (Env n) where
   join := ItvEnv.join
   meet := ItvEnv.meet
   forget := fun e x => if h : x < n then ItvEnv.forget e ⟨x, h⟩ else e
+  assignCst := fun e x k => if h : x < n then ItvEnv.assignCst e ⟨x, h⟩ k else e
+  assignVar := fun _ _ _ _ => none
+  assignNeg := fun _ _ _ _ => none
+  forgetAll := fun e xs => (finList n xs).foldl ItvEnv.forget e
+  project := fun e xs => ((List.finRange n).filter fun x => !(finList n xs).contains x).foldl ItvEnv.forget e
   closeQ := id
   isBottomC := ItvEnv.isBottom
   boundsC := fun e x => if h : x < n then ItvEnv.bounds e ⟨x, h⟩ else Crab.Itv.top
   entailsC := fun e c => (itvCst c).map (ItvEnv.entails e)
   witness := itvWitness
   witnessNot := itvWitnessNot
-  leq := itvLeq
+  leq := fun a b => itvLeq a b && ItvEnv.leq a b      -- the two formulations agree (`ItvEnv.leq` is the proved one)
   leqWitness := fun a b =>
     if ItvEnv.isBottom b then itvWitness a else
     (List.finRange n).findSome? fun x =>
@@ -201,6 +231,12 @@ def zoneModel (n : Nat) : Model (Zone n) where
   join := Zones.join
   meet := Zones.meet
   forget := fun z x => if h : x < n then Zones.forget z ⟨x, h⟩ else z
+  assignCst := fun z x k => if h : x < n then Zones.assignCst z ⟨x, h⟩ k else z
+  assignVar := fun z x y k =>
+    if hx : x < n then if hy : y < n then some (Zones.assignVar z ⟨x, hx⟩ ⟨y, hy⟩ k) else none else none
+  assignNeg := fun _ _ _ _ => none
+  forgetAll := fun z xs => Zones.forgetAll z (finList n xs)
+  project := fun z xs => Zones.project z (finList n xs)
   closeQ := Zones.close
   isBottomC := Zones.isBottomC
   boundsC := fun c x => if h : x < n then Zones.boundsC c ⟨x, h⟩ else Crab.Itv.top
@@ -292,6 +328,13 @@ def octModel (n : Nat) : Model (Oct n) where
   join := Octagon.join
   meet := Octagon.meet
   forget := fun o x => if h : x < n then Octagon.forget o ⟨x, h⟩ else o
+  assignCst := fun o x k => if h : x < n then Octagon.assignCst o ⟨x, h⟩ k else o
+  assignVar := fun o x y k =>
+    if hx : x < n then if hy : y < n then some (Octagon.assignVar o ⟨x, hx⟩ ⟨y, hy⟩ k) else none else none
+  assignNeg := fun o x y k =>
+    if hx : x < n then if hy : y < n then some (Octagon.assignNeg o ⟨x, hx⟩ ⟨y, hy⟩ k) else none else none
+  forgetAll := fun o xs => Octagon.forgetAll o (finList n xs)
+  project := fun o xs => Octagon.project o (finList n xs)
   closeQ := Octagon.close
   isBottomC := Octagon.isBottomC
   boundsC := fun c x => if h : x < n then Octagon.boundsC c ⟨x, h⟩ else Crab.Itv.top
@@ -375,7 +418,37 @@ def stepModel {α : Type} (M : Model α) (pool : Array α) (o : Sexp) : Except S
     match d.nat? with
     | some d => .ok (d, M.top)
     | none => .error "parse"
+  | .list [.atom "assignc", d, x, k] =>
+    match d.nat?, vIdx x, k.int? with
+    | some d, some x, some k => .ok (d, M.assignCst (pool.getD d M.top) x k)
+    | _, _, _ => .error "parse"
+  | .list [.atom "assignv", d, x, y, k] =>
+    match d.nat?, vIdx x, vIdx y, k.int? with
+    | some d, some x, some y, some k =>
+      match M.assignVar (pool.getD d M.top) x y k with
+      | some v => .ok (d, v)
+      | none => .error "assignment outside the model's language"
+    | _, _, _, _ => .error "parse"
+  | .list [.atom "assignn", d, x, y, k] =>
+    match d.nat?, vIdx x, vIdx y, k.int? with
+    | some d, some x, some y, some k =>
+      match M.assignNeg (pool.getD d M.top) x y k with
+      | some v => .ok (d, v)
+      | none => .error "assignment outside the model's language"
+    | _, _, _, _ => .error "parse"
+  | .list (.atom "forgetv" :: d :: xs) =>
+    match d.nat?, xs.mapM vIdx with
+    | some d, some xs => .ok (d, M.forgetAll (pool.getD d M.top) xs)
+    | _, _ => .error "parse"
+  | .list (.atom "project" :: d :: xs) =>
+    match d.nat?, xs.mapM vIdx with
+    | some d, some xs => .ok (d, M.project (pool.getD d M.top) xs)
+    | _, _ => .error "parse"
   | _ => .error "unknown op"
+
+/-- the liftings / products of C12's last sentence (only variable bounds are claimed for them) -/
+def isLifting (dom : String) : Bool :=
+  dom.startsWith "flat-bool-" || dom.startsWith "array-" || dom.startsWith "product-" || dom.startsWith "rgn-"
 
 def run {α : Type} (M : Model α) (dom : String) (nv : Nat) (norm : Bool) (ops res : List Sexp) : Verdict := Id.run do
   let nops := ops.length
@@ -444,7 +517,9 @@ def run {α : Type} (M : Model α) (dom : String) (nv : Nat) (norm : Bool) (ops 
           if acc.imprecise.isNone then
             if b && !m then
               acc := acc.addU s!"[C12] exact.hist {dom}: #{i} <= #{j} = true but not included: {showW (M.leqWitness a bb)}"
-            else if !b && m then
+            else if !b && m && !isLifting dom then
+              -- completeness of `<=` is part of C12 for the base domains only; for the liftings and the reduced
+              -- products the property claims variable bounds (their `<=` is component-wise by design)
               acc := acc.addI s!"[C12] exact.hist {dom}: #{i} <= #{j} = false but every state of #{i} is in #{j}"
         | _, _, _ => return .bad "exact.hist leq parse"
       | _ => return .bad "exact.hist leq parse"
